@@ -1,13 +1,18 @@
 SPECIFICATION Spec
 CONSTANTS MaxN = 2
-  LenProfiles <- LensQuick
+  DataProfiles <- DataQuick
   Forms <- FormsQuick
   StopKinds = {"close"}
   Scenarios <- ScenQuick
   Reruns = {FALSE, TRUE}
   RerunScenarios <- ScenRerunQuick
-  RerunLens <- LensRerunQuick
+  RerunData <- DataRerunQuick
   RerunForms <- FormsRerunQuick
+  Holds = {}
+  HoldScenarios = {}
+  HoldData = {}
+  HoldForms = {}
+  HoldRc = {}
   KeepHistory = FALSE
   Design = "final_name"
 VIEW view
